@@ -361,3 +361,431 @@ Proof.
   - exact HF.
   - cbn [bucket_new b_last]. rewrite span_from_self. unfold span in Hs. lia.
 Qed.
+
+(* ================================================================== keyed engine *)
+Definition keys (e : engine) : list N := map fst e.
+
+Lemma e_find_remove_other k k' e : k' <> k -> e_find k' (e_remove k e) = e_find k' e.
+Proof.
+  intro H. induction e as [|[q b] r IH]; cbn [e_remove e_find]; [reflexivity|].
+  destruct (q =? k) eqn:E.
+  - apply N.eqb_eq in E. subst q. rewrite IH.
+    destruct (k =? k') eqn:E2; [apply N.eqb_eq in E2; congruence|reflexivity].
+  - cbn [e_find]. rewrite IH. reflexivity.
+Qed.
+
+Lemma e_find_none_notin k e : e_find k e = None -> ~ In k (keys e).
+Proof.
+  induction e as [|[q b] r IH]; cbn [e_find keys map fst In]; intro H; [tauto|].
+  destruct (q =? k) eqn:E; [discriminate|]. apply N.eqb_neq in E.
+  intros [H1|H1]; [congruence|]. exact (IH H H1).
+Qed.
+
+Lemma keys_remove k e x : In x (keys (e_remove k e)) -> In x (keys e) /\ x <> k.
+Proof.
+  induction e as [|[q b] r IH]; cbn [e_remove keys map fst In]; [tauto|].
+  destruct (q =? k) eqn:E.
+  - intro H. destruct (IH H). split; [right|]; assumption.
+  - apply N.eqb_neq in E. cbn [keys map fst In]. intros [H|H].
+    + subst x. split; [left; reflexivity|exact E].
+    + destruct (IH H). split; [right|]; assumption.
+Qed.
+
+Lemma nodup_remove k e : NoDup (keys e) -> NoDup (keys (e_remove k e)).
+Proof.
+  induction e as [|[q b] r IH]; cbn [e_remove keys map fst]; intro H; [constructor|].
+  inv H. destruct (q =? k); [apply IH; assumption|].
+  cbn [keys map fst]. constructor; [|apply IH; assumption].
+  intro Hin. apply keys_remove in Hin. tauto.
+Qed.
+
+Definition EI (U : list N) (e : engine) : Prop := NoDup (keys e) /\ incl (keys e) U.
+
+Lemma EI_nil U : EI U [].
+Proof. split; [constructor|intros x []]. Qed.
+
+(* what one call does, as long as the LRU never has to evict: all keys in play (U) fit *)
+Lemma engine_try_spec c cap now k e U :
+  EI U e -> In k U -> N.of_nat (length U) <= cap ->
+  EI U (fst (engine_try c cap now k e)) /\
+  snd (engine_try c cap now k e) = snd (obucket_try c now (e_find k e)) /\
+  e_find k (fst (engine_try c cap now k e)) = Some (fst (obucket_try c now (e_find k e))) /\
+  (forall k', k' <> k -> e_find k' (fst (engine_try c cap now k e)) = e_find k' e).
+Proof.
+  intros [HN HI] Hk Hcap. unfold engine_try, obucket_try.
+  destruct (e_find k e) as [b|] eqn:F.
+  - destruct (try_consume c now b) as [b' x]. cbn [fst snd].
+    split; [|split; [reflexivity|split]].
+    + split.
+      * cbn [keys map fst]. constructor; [|apply nodup_remove; exact HN].
+        intro Hin. apply keys_remove in Hin. tauto.
+      * cbn [keys map fst]. intros y [Hy|Hy]; [subst y; exact Hk|].
+        apply keys_remove in Hy. apply HI. tauto.
+    + cbn [e_find]. rewrite N.eqb_refl. reflexivity.
+    + intros k' Hk'. cbn [e_find]. destruct (k =? k') eqn:E; [apply N.eqb_eq in E; congruence|].
+      apply e_find_remove_other. exact Hk'.
+  - destruct (try_consume c now (bucket_new c now)) as [b' x]. cbn [fst snd].
+    assert (Hnot : ~ In k (keys e)) by (apply e_find_none_notin; exact F).
+    assert (HN' : NoDup (k :: keys e)) by (constructor; assumption).
+    assert (HI' : incl (k :: keys e) U).
+    { intros y [Hy|Hy]; [subst y; exact Hk|apply HI; exact Hy]. }
+    assert (Hlen : (length (k :: keys e) <= length U)%nat) by (apply NoDup_incl_length; assumption).
+    assert (Eput : e_put cap k b' e = (k, b') :: e).
+    { unfold e_put. cbn [length] in *. unfold keys in Hlen. rewrite map_length in Hlen.
+      destruct (cap <? N.of_nat (S (length e))) eqn:E; [lia|reflexivity]. }
+    rewrite Eput. split; [|split; [reflexivity|split]].
+    + split; assumption.
+    + cbn [e_find]. rewrite N.eqb_refl. reflexivity.
+    + intros k' Hk'. cbn [e_find]. destruct (k =? k') eqn:E; [apply N.eqb_eq in E; congruence|reflexivity].
+Qed.
+
+Lemma engine_run_cons c cap e now k r :
+  engine_run c cap e ((now, k) :: r) =
+  (fst (engine_run c cap (fst (engine_try c cap now k e)) r),
+   snd (engine_try c cap now k e) :: snd (engine_run c cap (fst (engine_try c cap now k e)) r)).
+Proof.
+  cbn [engine_run]. destruct (engine_try c cap now k e) as [e1 x]. cbn [fst snd].
+  destruct (engine_run c cap e1 r) as [e2 xs]. reflexivity.
+Qed.
+
+(* key isolation: what key k experiences is the run of its own bucket over its own call times *)
+Lemma engine_isolation c cap U tr : forall e k,
+  EI U e -> (forall x, In x (map snd tr) -> In x U) -> N.of_nat (length U) <= cap ->
+  results_of k tr (snd (engine_run c cap e tr)) = snd (obucket_run c (e_find k e) (times_of k tr)) /\
+  e_find k (fst (engine_run c cap e tr)) = fst (obucket_run c (e_find k e) (times_of k tr)).
+Proof.
+  induction tr as [|[now q] r IH]; intros e k HE HU Hcap; [cbn; auto|].
+  rewrite engine_run_cons. cbn [fst snd results_of times_of].
+  assert (Hq : In q U) by (apply HU; left; reflexivity).
+  destruct (engine_try_spec c cap now q e U HE Hq Hcap) as (HE' & Hres & Hfk & Hfo).
+  assert (HU' : forall x, In x (map snd r) -> In x U) by (intros x Hx; apply HU; right; exact Hx).
+  destruct (IH (fst (engine_try c cap now q e)) k HE' HU' Hcap) as [IH1 IH2].
+  destruct (q =? k) eqn:E.
+  - apply N.eqb_eq in E. subst q. rewrite obucket_run_cons. cbn [fst snd].
+    rewrite Hfk in IH1, IH2. rewrite IH1, IH2, Hres. split; reflexivity.
+  - apply N.eqb_neq in E. rewrite Hfo in IH1, IH2 by congruence. split; assumption.
+Qed.
+
+Lemma engine_isolation_init c cap tr k :
+  N.of_nat (length (nodup N.eq_dec (map snd tr))) <= cap ->
+  results_of k tr (snd (engine_run c cap [] tr)) = snd (obucket_run c None (times_of k tr)).
+Proof.
+  intro H.
+  destruct (engine_isolation c cap (nodup N.eq_dec (map snd tr)) tr [] k) as [H1 _].
+  - apply EI_nil.
+  - intros x Hx. apply nodup_In. exact Hx.
+  - exact H.
+  - exact H1.
+Qed.
+
+(* other keys' buckets are untouched by a call, admitted or denied *)
+Lemma engine_try_other c cap now k e U k' :
+  EI U e -> In k U -> N.of_nat (length U) <= cap -> k' <> k ->
+  e_find k' (fst (engine_try c cap now k e)) = e_find k' e.
+Proof. intros HE Hk Hc Hne. destruct (engine_try_spec c cap now k e U HE Hk Hc) as (_ & _ & _ & H). auto. Qed.
+
+Lemma times_of_subl k tr : subl (times_of k tr) (map fst tr).
+Proof.
+  induction tr as [|[now q] r IH]; cbn [times_of map fst]; [constructor|].
+  destruct (q =? k); [apply subl_cons|apply subl_skip]; exact IH.
+Qed.
+
+(* per-key bound inside an engine *)
+Lemma engine_key_bound c cap tr k :
+  N.of_nat (length (nodup N.eq_dec (map snd tr))) <= cap ->
+  ntrue (results_of k tr (snd (engine_run c cap [] tr))) * c_window c
+  <= c_burst c * c_window c + c_max c * span (map fst tr).
+Proof.
+  intro H. rewrite engine_isolation_init by exact H.
+  pose proof (fresh_bound c (times_of k tr)) as HB.
+  pose proof (span_subl _ _ (times_of_subl k tr)) as HS.
+  assert (c_max c * span (times_of k tr) <= c_max c * span (map fst tr)) by (apply N.mul_le_mono_l; exact HS).
+  lia.
+Qed.
+
+Lemma Forall_subl {A} (P : A -> Prop) l' l : subl l' l -> Forall P l -> Forall P l'.
+Proof.
+  intros HS HF. rewrite Forall_forall in *. intros x Hx. apply HF. eapply subl_in; eassumption.
+Qed.
+
+Lemma engine_key_window_bound c cap tr k t0 :
+  N.of_nat (length (nodup N.eq_dec (map snd tr))) <= cap ->
+  Forall (fun t => t0 <= t /\ t <= t0 + c_window c) (map fst tr) ->
+  ntrue (results_of k tr (snd (engine_run c cap [] tr))) <= c_max c.
+Proof.
+  intros H HF. rewrite engine_isolation_init by exact H.
+  apply fresh_window_bound.
+  pose proof (Forall_subl _ _ _ (times_of_subl k tr) HF) as HF'.
+  destruct (times_of k tr) as [|t r] eqn:E; [constructor|].
+  cbn [hd]. pose proof (Forall_inv HF') as H0. cbn beta in H0.
+  eapply Forall_impl; [|exact HF']. cbn beta. intros a Ha. lia.
+Qed.
+
+(* ================================================================== join limiter *)
+Lemma join_run_cons jc cap st now ip r :
+  join_run jc cap st ((now, ip) :: r) =
+  (fst (join_run jc cap (fst (join_check jc cap now ip st)) r),
+   snd (join_check jc cap now ip st) :: snd (join_run jc cap (fst (join_check jc cap now ip st)) r)).
+Proof.
+  cbn [join_run]. destruct (join_check jc cap now ip st) as [s1 x]. cbn [fst snd].
+  destruct (join_run jc cap s1 r) as [s2 xs]. reflexivity.
+Qed.
+
+(* each engine of the join limiter runs, unmodified, on the sub-trace of calls that reach it *)
+Lemma join_engines jc cap tr : forall st,
+  let st' := fst (join_run jc cap st tr) in
+  let rs := snd (join_run jc cap st tr) in
+  engine_run (cfgG jc) cap (s_g st) (traceG tr) = (s_g st', map passed_global rs) /\
+  engine_run (cfg64 jc) cap (s_64 st) (trace64 tr rs) = (s_64 st', adm64 tr rs) /\
+  engine_run (cfg48 jc) cap (s_48 st) (trace48 tr rs) = (s_48 st', adm48 tr rs) /\
+  engine_run (cfg24 jc) cap (s_24 st) (trace24 tr rs) = (s_24 st', adm24 tr rs).
+Proof.
+  induction tr as [|[now ip] r IH]; intro st; cbn zeta.
+  - cbn. auto.
+  - rewrite join_run_cons. cbn [fst snd].
+    specialize (IH (fst (join_check jc cap now ip st))). cbn zeta in IH.
+    destruct IH as (IHg & IH64 & IH48 & IH24).
+    set (s2 := fst (join_run jc cap (fst (join_check jc cap now ip st)) r)) in *.
+    set (xs := snd (join_run jc cap (fst (join_check jc cap now ip st)) r)) in *.
+    revert IHg IH64 IH48 IH24.
+    unfold join_check.
+    destruct (engine_try (cfgG jc) cap now 0 (s_g st)) as [g' okg] eqn:EG.
+    destruct okg; cbn [negb].
+    + destruct ip as [a|a].
+      * destruct (engine_try (cfg24 jc) cap now (ext24 a) (s_24 st)) as [e24 ok24] eqn:E24.
+        destruct ok24; cbn [negb fst snd s_g s_64 s_48 s_24]; intros IHg IH64 IH48 IH24;
+          cbn [traceG trace64 trace48 trace24 adm64 adm48 adm24 map passed_global passed_64 is_ok engine_run];
+          rewrite ?EG, ?E24, ?IHg, ?IH24; auto.
+      * destruct (engine_try (cfg64 jc) cap now (ext64 a) (s_64 st)) as [e64 ok64] eqn:E64.
+        destruct ok64; cbn [negb].
+        -- destruct (engine_try (cfg48 jc) cap now (ext48 a) (s_48 st)) as [e48 ok48] eqn:E48.
+           destruct ok48; cbn [negb fst snd s_g s_64 s_48 s_24]; intros IHg IH64 IH48 IH24;
+             cbn [traceG trace64 trace48 trace24 adm64 adm48 adm24 map passed_global passed_64 is_ok engine_run];
+             rewrite ?EG, ?E64, ?E48, ?IHg, ?IH64, ?IH48; auto.
+        -- cbn [negb fst snd s_g s_64 s_48 s_24]; intros IHg IH64 IH48 IH24;
+             cbn [traceG trace64 trace48 trace24 adm64 adm48 adm24 map passed_global passed_64 is_ok engine_run];
+             rewrite ?EG, ?E64, ?IHg, ?IH64; auto.
+    + cbn [fst snd s_g s_64 s_48 s_24]; intros IHg IH64 IH48 IH24.
+      destruct ip as [a|a];
+        cbn [traceG trace64 trace48 trace24 adm64 adm48 adm24 map passed_global passed_64 is_ok engine_run];
+        rewrite ?EG, ?IHg; auto.
+Qed.
+
+(* counting lemmas (pure list facts) *)
+Lemma count64_le p tr : forall rs,
+  count_ok (in64 p) tr rs <= ntrue (results_of p (trace64 tr rs) (adm64 tr rs)).
+Proof.
+  induction tr as [|[now ip] r IH]; intros [|x xs]; cbn [count_ok trace64 adm64 results_of ntrue]; try lia.
+  specialize (IH xs). destruct ip as [a|a]; cbn [in64 andb].
+  - lia.
+  - destruct x; cbn [passed_global passed_64 is_ok results_of ntrue];
+        destruct (ext64 a =? p); cbn [andb ntrue]; lia.
+Qed.
+
+Lemma count48_le p tr : forall rs,
+  count_ok (in48 p) tr rs <= ntrue (results_of p (trace48 tr rs) (adm48 tr rs)).
+Proof.
+  induction tr as [|[now ip] r IH]; intros [|x xs]; cbn [count_ok trace48 adm48 results_of ntrue]; try lia.
+  specialize (IH xs). destruct ip as [a|a]; cbn [in48 andb].
+  - lia.
+  - destruct x; cbn [passed_global passed_64 is_ok results_of ntrue];
+        destruct (ext48 a =? p); cbn [andb ntrue]; lia.
+Qed.
+
+Lemma count24_le p tr : forall rs,
+  count_ok (in24 p) tr rs <= ntrue (results_of p (trace24 tr rs) (adm24 tr rs)).
+Proof.
+  induction tr as [|[now ip] r IH]; intros [|x xs]; cbn [count_ok trace24 adm24 results_of ntrue]; try lia.
+  specialize (IH xs). destruct ip as [a|a]; cbn [in24 andb].
+  - destruct x; cbn [passed_global passed_64 is_ok results_of ntrue];
+        destruct (ext24 a =? p); cbn [andb ntrue]; lia.
+  - lia.
+Qed.
+
+Lemma count_any_le tr : forall rs,
+  length rs = length tr ->
+  count_ok anyaddr tr rs <= ntrue (map passed_global rs).
+Proof.
+  induction tr as [|[now ip] r IH]; intros [|x xs] HL; cbn [count_ok map ntrue]; try lia.
+  cbn in HL. specialize (IH xs ltac:(lia)). unfold anyaddr at 1. cbn [andb].
+  destruct x; cbn [is_ok passed_global]; lia.
+Qed.
+
+Lemma join_run_length jc cap tr : forall st, length (snd (join_run jc cap st tr)) = length tr.
+Proof.
+  induction tr as [|[now ip] r IH]; intro st; [reflexivity|].
+  rewrite join_run_cons. cbn [snd length]. rewrite IH. reflexivity.
+Qed.
+
+Lemma trace64_times tr : forall rs, subl (map fst (trace64 tr rs)) (map fst tr).
+Proof.
+  induction tr as [|[now ip] r IH]; intros rs; [destruct rs; constructor|].
+  destruct rs as [|x xs]; destruct ip as [a|a]; cbn [trace64 map fst]; try apply subl_nil.
+  - apply subl_skip; apply IH.
+  - destruct (passed_global x); cbn [map fst]; [apply subl_cons|apply subl_skip]; apply IH.
+Qed.
+Lemma trace48_times tr : forall rs, subl (map fst (trace48 tr rs)) (map fst tr).
+Proof.
+  induction tr as [|[now ip] r IH]; intros rs; [destruct rs; constructor|].
+  destruct rs as [|x xs]; destruct ip as [a|a]; cbn [trace48 map fst]; try apply subl_nil.
+  - apply subl_skip; apply IH.
+  - destruct (passed_64 x); cbn [map fst]; [apply subl_cons|apply subl_skip]; apply IH.
+Qed.
+Lemma trace24_times tr : forall rs, subl (map fst (trace24 tr rs)) (map fst tr).
+Proof.
+  induction tr as [|[now ip] r IH]; intros rs; [destruct rs; constructor|].
+  destruct rs as [|x xs]; destruct ip as [a|a]; cbn [trace24 map fst]; try apply subl_nil.
+  - destruct (passed_global x); cbn [map fst]; [apply subl_cons|apply subl_skip]; apply IH.
+  - apply subl_skip; apply IH.
+Qed.
+Lemma traceG_times tr : map fst (traceG tr) = map fst tr.
+Proof. induction tr as [|[now ip] r IH]; cbn [traceG map fst]; [reflexivity|]. rewrite IH. reflexivity. Qed.
+
+Lemma trace64_keys tr : forall rs x, In x (map snd (trace64 tr rs)) -> In x (map ext64 (v6s tr)).
+Proof.
+  induction tr as [|[now ip] r IH]; intros rs x; [destruct rs; cbn; tauto|].
+  destruct rs as [|y ys]; destruct ip as [a|a]; cbn [trace64 map snd v6s In]; try tauto.
+  - apply IH.
+  - destruct (passed_global y); cbn [map snd In]; [intros [H|H]; [left; exact H|right; eapply IH; exact H]|].
+    intro H. right. eapply IH. exact H.
+Qed.
+Lemma trace48_keys tr : forall rs x, In x (map snd (trace48 tr rs)) -> In x (map ext48 (v6s tr)).
+Proof.
+  induction tr as [|[now ip] r IH]; intros rs x; [destruct rs; cbn; tauto|].
+  destruct rs as [|y ys]; destruct ip as [a|a]; cbn [trace48 map snd v6s In]; try tauto.
+  - apply IH.
+  - destruct (passed_64 y); cbn [map snd In]; [intros [H|H]; [left; exact H|right; eapply IH; exact H]|].
+    intro H. right. eapply IH. exact H.
+Qed.
+Lemma trace24_keys tr : forall rs x, In x (map snd (trace24 tr rs)) -> In x (map ext24 (v4s tr)).
+Proof.
+  induction tr as [|[now ip] r IH]; intros rs x; [destruct rs; cbn; tauto|].
+  destruct rs as [|y ys]; destruct ip as [a|a]; cbn [trace24 map snd v4s In]; try tauto.
+  - destruct (passed_global y); cbn [map snd In]; [intros [H|H]; [left; exact H|right; eapply IH; exact H]|].
+    intro H. right. eapply IH. exact H.
+  - apply IH.
+Qed.
+
+(* generic: a key of an engine that starts empty and whose keys all lie in U *)
+Lemma engine_key_bound_U c cap U tr k :
+  (forall x, In x (map snd tr) -> In x U) -> N.of_nat (length U) <= cap ->
+  ntrue (results_of k tr (snd (engine_run c cap [] tr))) * c_window c
+  <= c_burst c * c_window c + c_max c * span (map fst tr).
+Proof.
+  intros HU Hc.
+  destruct (engine_isolation c cap U tr [] k (EI_nil U) HU Hc) as [H1 _]. rewrite H1. cbn [e_find].
+  pose proof (fresh_bound c (times_of k tr)) as HB.
+  pose proof (span_subl _ _ (times_of_subl k tr)) as HS.
+  assert (c_max c * span (times_of k tr) <= c_max c * span (map fst tr)) by (apply N.mul_le_mono_l; exact HS).
+  lia.
+Qed.
+
+Lemma engine_key_window_U c cap U tr k t0 :
+  (forall x, In x (map snd tr) -> In x U) -> N.of_nat (length U) <= cap ->
+  Forall (fun t => t0 <= t /\ t <= t0 + c_window c) (map fst tr) ->
+  ntrue (results_of k tr (snd (engine_run c cap [] tr))) <= c_max c.
+Proof.
+  intros HU Hc HF.
+  destruct (engine_isolation c cap U tr [] k (EI_nil U) HU Hc) as [H1 _]. rewrite H1. cbn [e_find].
+  apply fresh_window_bound.
+  pose proof (Forall_subl _ _ _ (times_of_subl k tr) HF) as HF'.
+  destruct (times_of k tr) as [|t r] eqn:E; [constructor|].
+  cbn [hd]. pose proof (Forall_inv HF') as H0. cbn beta in H0.
+  eapply Forall_impl; [|exact HF']. cbn beta. intros a Ha. lia.
+Qed.
+
+Definition distinct (l : list N) : N := N.of_nat (length (nodup N.eq_dec l)).
+
+(* the LRU of every engine is large enough for the prefixes in play *)
+Definition join_fits (cap : N) (tr : list (N * addr)) : Prop :=
+  1 <= cap /\ distinct (map ext64 (v6s tr)) <= cap /\ distinct (map ext48 (v6s tr)) <= cap /\
+  distinct (map ext24 (v4s tr)) <= cap.
+
+Section JoinBounds.
+  Variables (jc : jcfg) (cap : N) (tr : list (N * addr)).
+  Hypothesis Hfit : join_fits cap tr.
+  Let rs := snd (join_run jc cap js_init tr).
+  Let T := span (map fst tr).
+
+  Lemma join_bound_64 p : count_ok (in64 p) tr rs * W64 <= j_per64 jc * W64 + j_per64 jc * T.
+  Proof.
+    destruct Hfit as (_ & H64 & _ & _).
+    destruct (join_engines jc cap tr js_init) as (_ & E64 & _ & _). cbn zeta in E64. fold rs in E64.
+    cbn [js_init s_64] in E64.
+    pose proof (count64_le p tr rs) as HC.
+    pose proof (engine_key_bound_U (cfg64 jc) cap (nodup N.eq_dec (map ext64 (v6s tr))) (trace64 tr rs) p) as HB.
+    rewrite E64 in HB. cbn [snd cfg64 c_window c_burst c_max] in HB.
+    specialize (HB ltac:(intros x Hx; apply nodup_In; eapply trace64_keys; exact Hx) H64).
+    pose proof (span_subl _ _ (trace64_times tr rs)) as HS. fold T in HS.
+    assert (j_per64 jc * span (map fst (trace64 tr rs)) <= j_per64 jc * T) by (apply N.mul_le_mono_l; exact HS).
+    assert (count_ok (in64 p) tr rs * W64 <= ntrue (results_of p (trace64 tr rs) (adm64 tr rs)) * W64)
+      by (apply N.mul_le_mono_r; exact HC).
+    lia.
+  Qed.
+
+  Lemma join_bound_48 p : count_ok (in48 p) tr rs * W48 <= j_per48 jc * W48 + j_per48 jc * T.
+  Proof.
+    destruct Hfit as (_ & _ & H48 & _).
+    destruct (join_engines jc cap tr js_init) as (_ & _ & E48 & _). cbn zeta in E48. fold rs in E48.
+    cbn [js_init s_48] in E48.
+    pose proof (count48_le p tr rs) as HC.
+    pose proof (engine_key_bound_U (cfg48 jc) cap (nodup N.eq_dec (map ext48 (v6s tr))) (trace48 tr rs) p) as HB.
+    rewrite E48 in HB. cbn [snd cfg48 c_window c_burst c_max] in HB.
+    specialize (HB ltac:(intros x Hx; apply nodup_In; eapply trace48_keys; exact Hx) H48).
+    pose proof (span_subl _ _ (trace48_times tr rs)) as HS. fold T in HS.
+    assert (j_per48 jc * span (map fst (trace48 tr rs)) <= j_per48 jc * T) by (apply N.mul_le_mono_l; exact HS).
+    assert (count_ok (in48 p) tr rs * W48 <= ntrue (results_of p (trace48 tr rs) (adm48 tr rs)) * W48)
+      by (apply N.mul_le_mono_r; exact HC).
+    lia.
+  Qed.
+
+  Lemma join_bound_24 p : count_ok (in24 p) tr rs * W24 <= j_per24 jc * W24 + j_per24 jc * T.
+  Proof.
+    destruct Hfit as (_ & _ & _ & H24).
+    destruct (join_engines jc cap tr js_init) as (_ & _ & _ & E24). cbn zeta in E24. fold rs in E24.
+    cbn [js_init s_24] in E24.
+    pose proof (count24_le p tr rs) as HC.
+    pose proof (engine_key_bound_U (cfg24 jc) cap (nodup N.eq_dec (map ext24 (v4s tr))) (trace24 tr rs) p) as HB.
+    rewrite E24 in HB. cbn [snd cfg24 c_window c_burst c_max] in HB.
+    specialize (HB ltac:(intros x Hx; apply nodup_In; eapply trace24_keys; exact Hx) H24).
+    pose proof (span_subl _ _ (trace24_times tr rs)) as HS. fold T in HS.
+    assert (j_per24 jc * span (map fst (trace24 tr rs)) <= j_per24 jc * T) by (apply N.mul_le_mono_l; exact HS).
+    assert (count_ok (in24 p) tr rs * W24 <= ntrue (results_of p (trace24 tr rs) (adm24 tr rs)) * W24)
+      by (apply N.mul_le_mono_r; exact HC).
+    lia.
+  Qed.
+
+  Lemma results_of_all0 tr0 : forall xs, length xs = length tr0 -> results_of 0 (traceG tr0) xs = xs.
+  Proof.
+    induction tr0 as [|[now ip] r IH]; intros [|x xs] HL; cbn in HL; try lia; [reflexivity|].
+    cbn [traceG results_of]. rewrite N.eqb_refl. rewrite IH by lia. reflexivity.
+  Qed.
+
+  Lemma traceG_keys tr0 : forall x, In x (map snd (traceG tr0)) -> In x [0].
+  Proof.
+    induction tr0 as [|[now ip] r IH]; cbn [traceG map snd In]; [tauto|].
+    intros x [H|H]; [left; exact H|apply IH; exact H].
+  Qed.
+
+  (* tokens taken from the global bucket (admitted or later denied by a subnet level) *)
+  Lemma join_bound_global :
+    ntrue (map passed_global rs) * WG <= j_gburst jc * WG + j_gmax jc * T.
+  Proof.
+    destruct Hfit as (H1 & _).
+    destruct (join_engines jc cap tr js_init) as (EG & _). cbn zeta in EG. fold rs in EG.
+    cbn [js_init s_g] in EG.
+    pose proof (engine_key_bound_U (cfgG jc) cap [0] (traceG tr) 0 (traceG_keys tr)) as HB.
+    rewrite EG in HB. cbn [snd cfgG c_window c_burst c_max length] in HB.
+    specialize (HB ltac:(lia)).
+    rewrite results_of_all0 in HB by (rewrite map_length; apply join_run_length).
+    rewrite traceG_times in HB. exact HB.
+  Qed.
+
+  Lemma join_bound_total : count_ok anyaddr tr rs * WG <= j_gburst jc * WG + j_gmax jc * T.
+  Proof.
+    pose proof join_bound_global as HG.
+    pose proof (count_any_le tr rs (join_run_length jc cap tr js_init)) as HC.
+    assert (count_ok anyaddr tr rs * WG <= ntrue (map passed_global rs) * WG) by (apply N.mul_le_mono_r; exact HC).
+    lia.
+  Qed.
+End JoinBounds.
